@@ -272,6 +272,97 @@ def skeleton(f):
     return conds, nfail
 
 
+
+# The components each state of the Standard's basic URL parser sets (ada's names; `hash` = fragment).  ada-specific
+# bookkeeping written alongside: `kind` (host_type) wherever a host is stored or copied, `opaque` where the path becomes
+# (or is copied as) opaque.  Read against https://url.spec.whatwg.org/#concept-basic-url-parser; the query-to-empty
+# steps of path/opaque-path/path-start states are performed by ada's QUERY case, the fragment by the code around the
+# loop (the `hash` writes inside cases are the early exits that store the fragment before returning).
+STANDARD_WRITES = {
+    "SCHEME_START": set(), "SCHEME": {"scheme"},
+    "NO_SCHEME": {"scheme", "path", "query", "hash", "opaque"},
+    "SPECIAL_RELATIVE_OR_AUTHORITY": set(), "PATH_OR_AUTHORITY": set(),
+    "SPECIAL_AUTHORITY_SLASHES": set(), "SPECIAL_AUTHORITY_IGNORE_SLASHES": set(),
+    "RELATIVE_SCHEME": {"scheme", "username", "password", "host", "kind", "port", "path", "opaque", "query"},
+    "RELATIVE_SLASH": {"username", "password", "host", "kind", "port"},
+    "AUTHORITY": {"username", "password", "hash"},
+    "HOST": {"host", "kind"}, "PORT": {"port"},
+    "FILE": {"scheme", "host", "kind", "path", "opaque", "query"},
+    "FILE_SLASH": {"host", "kind", "path"}, "FILE_HOST": {"host", "kind"},
+    "PATH_START": {"path", "hash"}, "PATH": {"path"}, "OPAQUE_PATH": {"path", "opaque"},
+    "QUERY": {"query", "hash"},
+}
+
+
+def state_writes(f, m, state, own_only=False):
+    """Counter of abstract components written inside the case of `state` (with own_only: not counting the code of the
+    cases it falls through into)."""
+    out = collections.Counter()
+    region = set(m.region.get(state, ()))
+    if own_only:
+        for y in m.fallthrough.get(state, ()):
+            region -= m.region[y]
+    for bid in region:
+        b = m.blocks[bid]
+        trees = [e for s in b["stmts"] for e in X.stmt_exprs(s)]
+        c = C.term_cond(b)
+        if c is not None:
+            trees.append(c)
+        for tr in trees:
+            for n in X.walk(tr, local=True):
+                if n.get("k") in ("assign",) or (n.get("k") == "call" and n.get("op") in ("=", "+=")):
+                    tgt = n.get("lhs") if n.get("k") == "assign" else n.get("recv")
+                    t0 = X.strip(tgt) if tgt is not None else None
+                    if isinstance(t0, dict) and t0.get("k") == "member" and X.show(t0).startswith("url."):
+                        comp = URL_FIELDS.get(t0.get("field"), "?" + str(t0.get("field")))
+                        if comp:
+                            out[comp] += 1
+                if n.get("k") == "call" and not n.get("op"):
+                    nm = n.get("name")
+                    involved = X.show(n.get("recv")) == "url" or any(X.show(X.strip(a)).startswith("url.") or X.show(X.strip(a)) == "url"
+                                                                   for a in n.get("args", []))
+                    if nm in CALL_COMPONENTS and involved:
+                        for cc in CALL_COMPONENTS[nm]:
+                            out[cc] += 1
+                    elif involved and n.get("recv") is not None and X.show(n["recv"]) == "url" and not n.get("const_method") \
+                            and n.get("fp"):
+                        out["?" + str(nm)] += 1
+    return out
+
+
+def check_state_writes_vs_standard(ctx, fx, rule):
+    """C01.S4: in each storing instantiation, the set of components written by the code of a state equals the set the
+    Standard's state sets (table above).  W2 compares the two types with each other; this anchors both to the Standard, so a
+    copy dropped from *both* (a relative reference that no longer inherits the port) is reported too."""
+    n = 0
+    for f in fx.fns("ada::parser::parse_url_impl"):
+        tag = SM.inst_tag(f)
+        if not tag.endswith("true"):
+            continue
+        m = SM.Machine(fx, f)
+        unknown = sorted(set(m.case_entry) - set(STANDARD_WRITES))
+        if unknown:
+            ctx.broken("%s: states %s are not in the table of the Standard's per-state writes (rules/c04.py)" % (rule, unknown))
+        for st in sorted(STANDARD_WRITES):
+            if st not in m.case_entry:
+                continue
+            w = state_writes(f, m, st, own_only=True)
+            bad = [x for x in w if x.startswith("?")]
+            if bad:
+                ctx.broken("%s: state %s writes through an unclassified operation %s — add it to rules/c04.py" % (rule, st, bad))
+            got, want = set(w), STANDARD_WRITES[st]
+            n += 1
+            missing, extra = sorted(want - got), sorted(got - want)
+            ctx.check(rule, "parse_url_impl<%s>: components set in state %s" % (tag, st), got == want,
+                      ", ".join(sorted(got)) or "none",
+                      "state %s sets {%s}; the Standard's state sets {%s}%s%s" % (
+                          st, ", ".join(sorted(got)), ", ".join(sorted(want)),
+                          "; never set here: %s" % ", ".join(missing) if missing else "",
+                          "; set here but not by the Standard: %s" % ", ".join(extra) if extra else ""),
+                      where=m.blocks[m.case_entry[st]].get("label", {}).get("loc", f["loc"]).replace("/repo/", ""),
+                      nontrivial=bool(want))
+    ctx.floor(rule, n, 38, "(storing instantiation, state) pairs compared with the Standard's per-state writes")
+
 def check(ctx, fx):
     from rules import c04_route
     c04_route.check(ctx, fx, "W8")
